@@ -67,6 +67,9 @@ type expr struct {
 	// a field reference written by NAME (resolved by the implementation and, independently, by the Lean model)
 	named        bool
 	rview, rname string
+	// a column number `rview.cnum`
+	colnum bool
+	cnum   int
 	// a scalar sub-query (number `sub` of the enclosing query, SQL text in subSQL)
 	scalar bool
 	sub    int
@@ -168,6 +171,9 @@ func lit(p value.Primary) string {
 func sqlExpr(e expr, ll, rl []col) string {
 	if e.scalar {
 		return "(" + e.subSQL + ")"
+	}
+	if e.colnum {
+		return e.rview + "." + strconv.Itoa(e.cnum)
 	}
 	if e.named {
 		return e.refText()
@@ -293,6 +299,29 @@ type enc struct {
 	vals   []string
 	tidx   map[*table]int
 	tables []*table
+	// byName: the plan carries NAMES (tables under their aliases with their column names, references as written in
+	// the SQL text, USING by names, NATURAL as such) - the Lean model resolves them; otherwise column indices
+	// resolved by this generator
+	byName bool
+	ll, rl []col // the layouts a condition's column operands refer to (byName)
+	noNames bool // a source without names was met: the plan cannot be sent by name
+}
+
+// condIn encodes a condition whose column operands refer to the layouts ll / rl
+func (e *enc) condIn(c *cond, ll, rl []col) []string {
+	sl, sr := e.ll, e.rl
+	e.ll, e.rl = ll, rl
+	out := e.cond(c)
+	e.ll, e.rl = sl, sr
+	return out
+}
+
+func refTok(c col) []string {
+	v := c.view
+	if v == "" {
+		v = "-"
+	}
+	return []string{"n", v, c.name}
 }
 
 func newEnc() *enc { return &enc{dict: map[string]int{}, tidx: map[*table]int{}} }
@@ -312,6 +341,9 @@ func (e *enc) expr(x expr) []string {
 	if x.scalar {
 		return []string{"s", strconv.Itoa(x.sub)}
 	}
+	if x.colnum {
+		return []string{"m", x.rview, strconv.Itoa(x.cnum)}
+	}
 	if x.named {
 		v := x.rview
 		if v == "" {
@@ -320,6 +352,16 @@ func (e *enc) expr(x expr) []string {
 		return []string{"n", v, x.rname}
 	}
 	if x.isCol {
+		if e.byName {
+			lay := e.ll
+			if x.side != 0 {
+				lay = e.rl
+			}
+			if x.idx < len(lay) {
+				return refTok(lay[x.idx])
+			}
+			e.noNames = true
+		}
 		return []string{"c", strconv.Itoa(x.side), strconv.Itoa(x.idx)}
 	}
 	return []string{"l", e.val(x.lit)}
@@ -395,15 +437,35 @@ func (e *enc) tblIdx(t *table) int {
 func (e *enc) src(s *src) []string {
 	switch s.kind {
 	case 'T':
+		if e.byName {
+			names := s.t.colNames()
+			out := append([]string{"A", s.alias, strconv.Itoa(len(names))}, names...)
+			return append(out, "T", strconv.Itoa(e.tblIdx(s.t)))
+		}
 		return []string{"T", strconv.Itoa(e.tblIdx(s.t))}
 	case 'G':
+		e.noNames = true
 		return []string{"G"}
 	case 'Q':
+		if e.byName {
+			return append([]string{"A", s.alias, "0"}, e.query(s.q)...)
+		}
 		return e.query(s.q)
 	}
 	out := []string{"J", string(s.jk)}
 	out = append(out, e.src(s.l)...)
 	out = append(out, e.src(s.r)...)
+	if e.byName {
+		switch s.jform {
+		case 'c':
+			return append(out, "-")
+		case 'o':
+			return append(append(out, "O"), e.condIn(s.on, s.l.layout, s.r.layout)...)
+		case 'u':
+			return append(append(out, "UN", strconv.Itoa(len(s.unames))), s.unames...)
+		}
+		return append(out, "NA")
+	}
 	switch s.jform {
 	case 'c':
 		out = append(out, "-")
@@ -426,10 +488,16 @@ func (e *enc) query(q *qry) []string {
 		out = append(out, "-")
 	} else {
 		out = append(out, "W")
-		out = append(out, e.cond(q.where)...)
+		out = append(out, e.condIn(q.where, q.from.layout, nil)...)
 	}
 	if q.star {
 		out = append(out, "*")
+	} else if e.byName {
+		out = append(out, "L", strconv.Itoa(len(q.sel)))
+		for i, k := range q.sel {
+			out = append(append(out, "r"), refTok(q.from.layout[k])[1:]...)
+			out = append(out, q.names[i])
+		}
 	} else {
 		out = append(out, "S", strconv.Itoa(len(q.sel)))
 		for _, k := range q.sel {
@@ -1383,7 +1451,15 @@ func run(seed int64, n int, dir string, _ []string) {
 			fmt.Fprintf(os.Stderr, "%d\t%s\n", v.RecordLen(), sql)
 		}
 		e := newEnc()
+		e.byName = i%5 == 1 || i%5 == 3 || i%10 == 2
 		plan := strings.Join(e.query(q), " ")
+		if e.byName && e.noNames {
+			e = newEnc()
+			plan = strings.Join(e.query(q), " ")
+		}
+		if e.byName {
+			o.Count("plan_sent_by_name")
+		}
 		op := fmt.Sprintf("c03.q %d %s %s #%s", cpu, e.header(), plan, hc.Hex(sql))
 		o.Case(op, canon(v))
 		shape := queryShape(q, o, 0)
@@ -1423,9 +1499,11 @@ func run(seed int64, n int, dir string, _ []string) {
 	lateralModelCases(g, pr, o, n)
 	lateralDeepCases(g, pr, o, n)
 	aggSubqueryCases(g, pr, o, n)
+	nameRuleCases(g, pr, o, n)
 	starExpansionCases(g, pr, o, n)
 	precedenceSessions(g, o, n)
 	recursiveNamedCases(g, o, n)
+	recChainCases(g, o, n)
 	lawStreams(g, pr, o, n)
 }
 
